@@ -96,6 +96,7 @@ type harness struct {
 	handle  map[string]*actor.PID
 	lastPre map[string]*tact
 	quiet   atomic.Bool // stop emitting (cleanup phase)
+	stopRet atomic.Bool // ActorSystem.Stop has returned
 	pushes  atomic.Int64
 	gateH   bool // gate the message handler of test actors
 	msgid   atomic.Int64
@@ -271,7 +272,8 @@ func (a *tact) message(m any) {
 		if h.gateH {
 			h.yield("h.enter", v.ID, 0)
 		}
-		h.emit("henter", func(e map[string]any) { e["n"] = a.name; e["i"] = a.inst; e["k"] = a.k; e["c"] = v.ID })
+		late := b2i(h.stopRet.Load()) // read at entry: the event may be logged later than it happened
+		h.emit("henter", func(e map[string]any) { e["n"] = a.name; e["i"] = a.inst; e["k"] = a.k; e["c"] = v.ID; e["run"] = late })
 		for i := 0; i < h.spin; i++ {
 			runtime.Gosched()
 		}
@@ -317,7 +319,8 @@ func (g *tgrain) OnActivate(context.Context, *actor.GrainProps) error {
 
 func (g *tgrain) OnReceive(ctx *actor.GrainContext) {
 	if m, ok := ctx.Message().(*Msg); ok {
-		g.h.emit("ghandle", func(e map[string]any) { e["n"] = g.name; e["c"] = m.ID })
+		late := b2i(g.h.stopRet.Load())
+		g.h.emit("ghandle", func(e map[string]any) { e["n"] = g.name; e["c"] = m.ID; e["run"] = late })
 		for i := 0; i < g.h.spin; i++ {
 			runtime.Gosched()
 		}
@@ -448,6 +451,7 @@ func (h *harness) execOp(t string, o opT, self *actor.PID) {
 	case "sysstop":
 		call()
 		err := h.sys.Stop(ctx)
+		h.stopRet.Store(true)
 		ret(err, nil)
 	default:
 		fatal("unknown op", o.Op)
